@@ -30,10 +30,11 @@ def run_one(m, repo, runs, workers, keep):
         subprocess.run(["git", "-C", repo, "worktree", "add", "-q", "--detach", wt, "HEAD"], check=True, capture_output=True)
         path = os.path.join(wt, m["file"])
         src = open(path).read()
-        if src.count(m["old"]) != 1:
-            out["result"] = "MUTANT-DOES-NOT-APPLY (%d matches)" % src.count(m["old"])
+        nmatch = src.count(m["old"])
+        if nmatch < 1 or (nmatch != 1 and not m.get("first_only")):
+            out["result"] = "MUTANT-DOES-NOT-APPLY (%d matches)" % nmatch
             return out
-        open(path, "w").write(src.replace(m["old"], m["new"]))
+        open(path, "w").write(src.replace(m["old"], m["new"], 1))
         env = dict(os.environ)
         env["VERIF_REPO"] = wt
         env["VERIF_EVIDENCE_DIR"] = os.path.join(tmp, "evidence")
